@@ -72,7 +72,8 @@ type selCase struct {
 
 type op struct {
 	kind      opKind
-	seq       int // publication order
+	seq       int      // publication order
+	at        Duration // virtual instant of publication
 	ch        *chanCore
 	val       any // value to send
 	mu        *Mutex
@@ -494,6 +495,7 @@ func inert() bool {
 func (s *Sched) yield(o *op) {
 	g := s.cur
 	o.seq = s.pubSeq
+	o.at = s.now
 	s.pubSeq++
 	g.pend = o
 	s.steps++
@@ -932,6 +934,38 @@ func (s *Sched) apply(g *G) bool {
 		for i, c := range o.cases {
 			if c.send && s.sendReady(g, c.ch) || !c.send && s.recvReady(g, c.ch) {
 				ready = append(ready, i)
+			}
+		}
+		if o.hasDef && len(ready) > 0 {
+			// A goroutine is parked AT its next visible operation, so a sender / receiver counts as
+			// waiting on the channel from the moment its previous operation completed. A non-blocking
+			// poll (select with default) can tell the difference: in a real execution the partner may
+			// still be on its way to the channel operation when the poll happens. For every ready case
+			// that is ready only through a partner that published its operation at this very instant
+			// (library code takes no virtual time, A1), the schedule "the poll comes first" is a
+			// second outcome; it costs one preemption (the partner was held up before arriving).
+			var firm []int
+			fresh := false
+			for _, i := range ready {
+				c := o.cases[i]
+				viaPartner := c.ch != nil && !c.ch.closed && (c.send && len(c.ch.buf) >= c.ch.cap || !c.send && len(c.ch.buf) == 0)
+				if viaPartner {
+					if p := s.findPartner(g, c.ch, !c.send); p != nil && p.pend != nil && p.pend.at == s.now {
+						fresh = true
+						continue
+					}
+				}
+				firm = append(firm, i)
+			}
+			if fresh {
+				alt := s.choice(2, pkSched, true)
+				if alt < 0 {
+					return false
+				}
+				if alt == 1 {
+					ready = firm
+					g.hash = mix(g.hash, 0x2F)
+				}
 			}
 		}
 		if len(ready) == 0 {
